@@ -17,7 +17,7 @@ from dagrt.utils import is_state_variable
 
 from simdag.core.outcome import Discard, Violation
 from simdag.engines.sched import Exec, _sv, ancestors, random_extension
-from simdag.gen.script import ScriptGen, apply_script
+from simdag.gen.script import ScriptGen, apply_script, script_names
 from simdag.model.refstepper import is_persistent, same_value
 from simdag.seams.store import copy_store
 
@@ -75,8 +75,15 @@ def run_c16(ctx):
                 state_num=["<state>y", "<state>ya"], state_int=["<state>n"], state_arr=["<state>a"])
     cfgB = dict(phase_names=names, next=nxt, no_advance=True, shared_ro=shared,
                 state_num=["<state>z", "<state>zb"], state_int=["<state>m"], state_arr=["<state>b"])
+    forbid_b = forbid
+    if tape.chance(0.3, "b_uses_counter_names"):
+        # the second method has no loops and uses i / j as ordinary temporaries, while the first method
+        # uses them as loop counters: they must be kept apart like any other per-step name
+        cfgB["extra_temps"] = ["i", "j", "i", "j"]
+        forbid_b = forbid + ("loops", "arrays", "var_bounds")
+        ctx.count("probe:counter_name_as_temporary")
     scA = ScriptGen(tape, max_ops=6, max_depth=2, persistent_p=False, forbid=forbid, cfg=cfgA).gen()
-    scB = ScriptGen(tape, max_ops=6, max_depth=2, persistent_p=False, forbid=forbid, cfg=cfgB).gen()
+    scB = ScriptGen(tape, max_ops=6, max_depth=2, persistent_p=False, forbid=forbid_b, cfg=cfgB).gen()
     try:
         apA, apB = apply_script(scA), apply_script(scB)
     except Exception:
@@ -84,6 +91,7 @@ def run_c16(ctx):
     ctx.decoded["script_A"] = scA.text(apA.nm)
     ctx.decoded["script_B"] = scB.text(apB.nm)
     dagA, dagB = build_dag(scA, apA), build_dag(scB, apB)
+    own_names_A, own_names_B = script_names(scA, apA), script_names(scB, apB)
 
     if variant == 1 and n_ph > 1:
         dagB = DAGCode(dagB.phases, names[1])
@@ -194,6 +202,10 @@ def run_c16(ctx):
                                 "deps %r, expected %r" % (name, b_.id, sorted(b_.depends_on), fb.id,
                                                           sorted(fb.depends_on), sorted(want)), site="B")
         nA, nB0, nFB = names_of(A), names_of(B), names_of(FB)
+        # names taken from the scripts themselves (independent of dagrt's read/write sets), plus
+        # the guard flags that only exist in the built statements
+        nA = nA | own_names_A.get(name, set())
+        nB0 = nB0 | own_names_B.get(name, set())
         clash = nA & nB0
         for c in sorted(clash):
             if c in ("i", "j", "k"):
@@ -217,7 +229,7 @@ def run_c16(ctx):
                     raise Violation("predicate-ignored", "phase %s: name %s %s although the predicate says %s"
                                     % (name, c, "was renamed" if renamed else "was not renamed", bool(pred(c))),
                                     site=_cls(c))
-        for c in sorted(nB0 - clash):
+        for c in sorted(names_of(B) - clash):
             if c not in nFB:
                 raise Violation("predicate-ignored", "phase %s: name %s of the second method does not clash "
                                 "but was renamed" % (name, c), site=_cls(c))
